@@ -204,7 +204,8 @@ fn run_l<L: Language + 'static>(c: &ProbeCase, obs: &mut Obs) -> Result<(), Stri
 }
 
 fn strategy(lang: LangId, max_ops: usize) -> BoxedStrategy<ProbeCase> {
-    let cfg = MixedCfg { max_ops, allow_extraction_subst: false, ..MixedCfg::for_lang(lang) };
+    let mut cfg = MixedCfg { max_ops, allow_extraction_subst: false, ..MixedCfg::for_lang(lang) };
+    cfg.hist.namings = Naming::diverse();
     let sig = lang.sig();
     let gcfg = cfg.hist.gen.clone();
     let probe = crate::one_of![ 
